@@ -254,6 +254,8 @@ def localDSE (env : Env) (curHeight : UInt64) (pqc : QC) (hd : View) (proposalAt
 structure Val where
   stake : UInt64
   committees : List UInt64
+  /-- `UnstakingHeight != 0` (force-unstaked validators stay slashable members until they leave) -/
+  unstaking : Bool := false
 deriving DecidableEq, Repr
 
 structure Params where
@@ -261,6 +263,7 @@ structure Params where
   committeeScoped : Bool
   maxSlash : UInt64          -- `MaxSlashPerCommittee`
   dsPercent : UInt64         -- `DoubleSignSlashPercentage`
+  minStake : UInt64 := 0     -- `MinimumStakeForValidators`
 
 structure Ledger where
   vals : Addr → Option Val
@@ -284,12 +287,15 @@ def upd1 {β} (f : Addr → β) (a : Addr) (v : β) : Addr → β := fun a' => i
 /-- `StateMachine.Reset` at a block boundary: a fresh slash tracker -/
 def newBlock (L : Ledger) : Ledger := { L with tracker := fun _ _ => 0, charged := fun _ _ => 0 }
 
-/-- the stake part of `SlashValidator`: zero stake deletes the validator -/
-def applySlash (L : Ledger) (a : Addr) (v : Val) (chain percent : UInt64) (cs : List UInt64) : Ledger :=
+/-- the stake part of `SlashValidator`: zero stake deletes the validator; a stake left below the minimum
+force-unstakes it (`SetValidatorUnstakingIfBelowMinimum`, an early return of the Go function — the tracker was
+already updated by then) -/
+def applySlash (minStake : UInt64) (L : Ledger) (a : Addr) (v : Val) (chain percent : UInt64) (cs : List UInt64) : Ledger :=
   let after := stakeAfterSlash v.stake percent
   let L' := { L with charged := upd2 L.charged a chain (L.charged a chain + percent.toNat) }
   if after == 0 then { L' with vals := upd1 L.vals a none }
-  else { L' with vals := upd1 L.vals a (some { stake := after, committees := cs }) }
+  else { L' with vals := upd1 L.vals a (some { stake := after, committees := cs,
+                                                unstaking := v.unstaking || decide (after < minStake) }) }
 
 /-- `StateMachine.SlashValidator(validator, chainId, percent, p)` -/
 def slashValidator (P : Params) (L : Ledger) (a : Addr) (v : Val) (chain percent : UInt64) : Ledger :=
@@ -302,8 +308,8 @@ def slashValidator (P : Params) (L : Ledger) (a : Addr) (v : Val) (chain percent
         let capped := slashCapped slashTotal percent P.maxSlash
         let percent' := if capped then cappedPercent slashTotal P.maxSlash else percent
         let cs := if capped then v.committees.erase chain else v.committees
-        applySlash { L with tracker := upd2 L.tracker a chain (slashTotal + percent') } a v chain percent' cs
-  else applySlash L a v chain percent v.committees
+        applySlash P.minStake { L with tracker := upd2 L.tracker a chain (slashTotal + percent') } a v chain percent' cs
+  else applySlash P.minStake L a v chain percent v.committees
 
 /-- `StateMachine.SlashValidators(addresses, chainId, percent, p)`: unknown validators are skipped -/
 def slashValidators (P : Params) (L : Ledger) (chain percent : UInt64) : List Addr → Ledger
